@@ -587,7 +587,7 @@ pub fn leap_probes(out: &mut impl Write, rng: &mut Rng, thorough: bool) {
 
 // ---------------------------------------------------------------- zonenew (C13)
 
-fn zonenew_line(out: &mut impl Write, raw: &RawZone) {
+pub fn zonenew_line(out: &mut impl Write, raw: &RawZone) {
     let b = Built::from_raw(raw.clone());
     let r1 = match b.zref() {
         Ok(_) => "ok".to_string(),
@@ -724,6 +724,7 @@ fn ftext(f: &Fields) -> String {
     format!("{} {} {} {} {} {} {}", f.0, f.1, f.2, f.3, f.4, f.5, f.6)
 }
 
+#[allow(dead_code)]
 const BIG: usize = 64;
 
 /// result list of the search, through the allocating entry point when available
